@@ -256,6 +256,56 @@ def main():
                 got = out(m.dispatch, p)
                 if got != w_:
                     fail("linked_family.works_normally_once_offending_method_removed", depth=depth, member=i, probe=type(p).__name__, got=got, want=w_)
+    # the Ovld object used as a class attribute (descriptor): attribute access re-enters the build while the function is not
+    # marked as built, so after a failed first build later calls fail again or see all methods - never a partial table
+    from ovld import Ovld as _Ovld, call_next as _cn
+    from ovld.utils import UsageError as _UE
+
+    def _bad(self, x: float):  # invalid: call_next must be called right away
+        nxt = _cn
+        return nxt(x)
+
+    for pos in range(4):
+        class Walker:
+            visit = _Ovld()
+
+        def v_obj(self, x: object):
+            return "obj"
+
+        def v_int(self, x: int):
+            return "int"
+
+        def v_str(self, x: str):
+            return "str"
+
+        good = [v_obj, v_int, v_str]
+        for g_ in good[:pos] + [_bad] + good[pos:]:
+            Walker.__dict__["visit"].register(g_)
+        w_ = Walker()
+
+        def probe(inst):
+            res = []
+            for a_ in (1, "s", None):
+                try:
+                    res.append(inst.visit(a_))
+                except _UE:
+                    res.append("<configuration error>")
+                except TypeError as e:
+                    res.append("nomethod" if str(e).startswith("No method") else f"TypeError: {str(e)[:40]}")
+                except Exception as e:
+                    res.append(f"{type(e).__name__}: {str(e)[:40]}")
+            return res
+
+        n += 1
+        first = probe(w_)[:1]
+        again = probe(w_)
+        for a_, want, g_ in zip((1, "s", None), ("int", "str", "obj"), again):
+            if g_ not in (want, "<configuration error>"):
+                fail("attribute_access_after_failed_build.partial_table_in_service", invalid_method_at=pos, probe=repr(a_), got=g_, complete_set_gives=want)
+        Walker.__dict__["visit"].unregister(_bad)
+        after = probe(Walker())
+        if after != ["int", "str", "obj"]:
+            fail("attribute_access_after_failed_build.works_once_the_invalid_method_is_removed", invalid_method_at=pos, got=after)
     print(json.dumps(dict(evaluations=n, failing=list(failing.values()))))
     return 1 if failing else 0
 
